@@ -206,3 +206,80 @@ pub fn exec(plan: &Plan) -> Outcome {
     out.oracle_evals = evals;
     out
 }
+
+/// Build-configuration probe through the public API only: every key constant read black-box from
+/// single-feature boards, and the complete slider enumeration of this build's tables. Prints the
+/// same JSON shape as /verif/cfgprobe.
+pub fn keyprobe() -> String {
+    use crate::model::ALL_P;
+    let mut problems: Vec<String> = Vec::new();
+    let mut piece_keys: Vec<u64> = Vec::new();
+    for p in ALL_P {
+        for sq in 0..64u8 {
+            for c in [Color::Black, Color::White] {
+                let mut b = Board::new();
+                b.put(bb(sq), crate::eng::piece(p), c).unwrap();
+                piece_keys.push(b.current_position_hash());
+            }
+        }
+    }
+    let mut rights_keys: Vec<u64> = Vec::new();
+    for r in 0..16u8 {
+        let mut b = Board::new();
+        b.lose_castle_rights(0b1111 & !r);
+        rights_keys.push(b.current_position_hash());
+    }
+    let mut ep_keys: Vec<u64> = Vec::new();
+    for sq in (16..24u8).chain(40..48u8) {
+        let mut b = Board::new();
+        b.push_en_passant_target(bb(sq));
+        ep_keys.push(b.current_position_hash());
+    }
+    let distinct = |v: &Vec<u64>| {
+        let mut s = v.clone();
+        s.sort_unstable();
+        s.dedup();
+        s.len()
+    };
+    if distinct(&piece_keys) != 768 {
+        problems.push(format!("C05|piece-keys-not-pairwise-distinct|{} distinct of 768", distinct(&piece_keys)));
+    }
+    if piece_keys.iter().any(|k| *k == 0) {
+        problems.push("C05|piece-key-zero|a (piece, colour, square) constant is 0".to_string());
+    }
+    if distinct(&rights_keys) != 16 {
+        problems.push(format!("C05|castling-rights-keys-not-pairwise-distinct|{} distinct of 16", distinct(&rights_keys)));
+    }
+    if distinct(&ep_keys) != 16 {
+        problems.push(format!("C05|en-passant-keys-not-pairwise-distinct|{} distinct of 16", distinct(&ep_keys)));
+    }
+    if ep_keys.iter().any(|k| *k == 0) {
+        problems.push("C05|en-passant-key-zero|an en-passant constant is 0".to_string());
+    }
+    let mut all = piece_keys.clone();
+    all.extend(ep_keys.iter());
+    let mut cases = 0u64;
+    let mut bad = 0u64;
+    for sq in 0..64u64 {
+        let plan = gen_plan("C11", 1, sq + 64, Tier::Quick);
+        let o = exec(&plan);
+        cases += o.oracle_evals;
+        if let Some(v) = o.violation {
+            bad += 1;
+            if bad <= 3 {
+                let what = if v.class.contains("rook") { "rook-table-wrong" } else if v.class.contains("bishop") { "bishop-table-wrong" } else { "attack-table-wrong" };
+                problems.push(format!("C11|{}|{}", what, v.detail.replace('"', "'")));
+            }
+        }
+    }
+    format!(
+        "{{\"piece_keys_distinct\": {}, \"rights_keys_distinct\": {}, \"ep_keys_distinct\": {}, \"piece_and_ep_distinct\": {}, \"slider_cases\": {}, \"slider_cases_wrong\": {}, \"problems\": [{}]}}",
+        distinct(&piece_keys),
+        distinct(&rights_keys),
+        distinct(&ep_keys),
+        distinct(&all),
+        cases,
+        bad,
+        problems.iter().map(|p| format!("\"{}\"", p.replace('"', "'"))).collect::<Vec<_>>().join(", ")
+    )
+}
